@@ -31,7 +31,7 @@ var realCommon = []string{"rsyncclient", "rsyncd", "rsynccmd", "internal/maincmd
 var stubCommon = []string{"connection (simulated byte-stream transport, every Read/Write scheduled)", "listener and peer addresses", "clock (testing/synctest fake time)", "scheduler (seeded choice tape decides which parked operation proceeds)"}
 
 func q(runs int, budget time.Duration) TierCfg {
-	return TierCfg{Runs: runs, Budget: budget, JobTimeout: 180 * time.Second}
+	return TierCfg{Runs: runs, Budget: budget, JobTimeout: 300 * time.Second}
 }
 
 var Meta = map[string]PropMeta{
